@@ -205,6 +205,9 @@ inductive Handle where
   | obj (k : Kind) (id : Option Nat)                   -- action / filter / request; none = NULL
   | hlist (nodes : List HNode)
   | tproxies (outer inner : Nat)
+  /-- a pointer the library gave back that is the CALLER'S OWN object (`header_filter_filter(NULL action, list)` returns
+  `list`): nothing to own, and releasing it "as a returned list" frees the caller's input — a fault -/
+  | alias
 deriving Repr
 
 structure Slot where
@@ -382,7 +385,7 @@ def step (st : State) : Call → State
     match st.get a with
     | some (.obj .action id) =>
       match id with
-      | none => st.push (.hlist [])                          -- returns the caller's own list: the slot owns nothing
+      | none => st.push .alias                               -- `return header_map;`: the caller's own list, not a new one
       | some id =>
         let (h, nodes) := headerList sz (st.heap.use id) out []
         { st with heap := h }.push (.hlist nodes)
@@ -483,6 +486,7 @@ def owns : Handle → List (Nat × Nat × Kind)
   | .obj k (some id) => [(id, sz k, k)]
   | .obj _ none => []
   | .hlist nodes => ownsNodes sz nodes
+  | .alias => []
   | .tproxies o i => [(o, sz .tproxies, .tproxies), (i, sz .tconfig, .tconfig)]
 
 /-- everything the caller still holds -/
@@ -490,9 +494,10 @@ def ownedSlots : List Slot → List (Nat × Nat × Kind)
   | [] => []
   | sl :: rest => (if sl.released then [] else owns sz sl.h) ++ ownedSlots rest
 
-/-- Every handle that has a release function has been released (trusted proxies have none). -/
+/-- Every handle that has a release function has been released (trusted proxies have none; an alias of the caller's
+own list must NOT be released). -/
 def AllReleased (st : State) : Prop :=
-  ∀ sl ∈ st.slots, sl.released = true ∨ ∃ o i, sl.h = .tproxies o i
+  ∀ sl ∈ st.slots, sl.released = true ∨ (∃ o i, sl.h = .tproxies o i) ∨ sl.h = .alias
 
 /-- Allocations documented as never released: the trusted-proxies pair. -/
 def documentedLeak (c : Nat × Nat × Kind) : Bool := c.2.2 == .tproxies || c.2.2 == .tconfig
